@@ -902,7 +902,16 @@ func (rn *runner) withEnv(tag string, body func()) {
 
 func (rn *runner) runHistory(hi int, nOps int, big bool) {
 	rn.h = genHistory(rn.r, big)
-	rn.withEnv(fmt.Sprintf("%d", hi), func() { rn.runOps(nOps, big) })
+	// a quarter of the histories with the bloom filter in front of the series-key lookup, a quarter
+	// with the persistent index cache (restarts then alternate between the cache saved by the last
+	// close and the one saved by the close before): the model is the same for all of them
+	mode := rn.r.Intn(4)
+	setIndexMode(mode == 2, mode == 3)
+	defer setIndexMode(false, false)
+	rn.withEnv(fmt.Sprintf("%d", hi), func() {
+		rn.c.Count(fmt.Sprintf("history:bloom=%v,persistent-cache=%v", mode == 2, mode == 3))
+		rn.runOps(nOps, big)
+	})
 }
 
 func (rn *runner) runOps(nOps int, big bool) {
